@@ -276,6 +276,15 @@ Definition do_setter (x : pobj) (s : setter) : pobj * outcome res * list Z * lis
   | OutOfModel => (x1, OutOfModel, add, [])
   end.
 
+(* the same method as python -O / -OO run it: the `assert not self.pid < 0` of _send_signal is stripped *)
+Definition do_setter_O (x : pobj) (s : setter) : pobj * outcome res * list Z * list sysc :=
+  let '(x1, r, add) := raise_if_pid_reused x in
+  match r with
+  | Val _ => let '(x2, r2, scs) := setter_body x1 s in (x2, r2, add, scs)
+  | Exc e => (x1, Exc e, add, [])
+  | OutOfModel => (x1, OutOfModel, add, [])
+  end.
+
 (* _proc._parse_stat_file(): memoized while a oneshot block is active (exceptions are not memoized) *)
 Definition parse_stat (x : pobj) : pobj * option (Z * Z) :=
   match oshot x, ocstat x with
